@@ -1068,7 +1068,7 @@ pub mod hx_rewrite_lib {
         assert!(wf_pattern(&pat));
         let tt_known: bool = kani::any();
         let in_library: bool = kani::any();
-        oracle::set(slot, if tt_known { Some(tt) } else { None }, canonical, t, if in_library { Some(&pat) } else { None });
+        oracle::set(slot, if tt_known { Some(tt) } else { None }, canonical, t, &pat, in_library);
         CutCase { leaves, nl: nl as usize, cone_size, tt, t, canonical, pat }
     }
     fn cut_of(c: &CutCase) -> Cut {
@@ -1253,13 +1253,14 @@ pub mod oracle {
     fn dec_edge(w: u64) -> PatEdge {
         PatEdge((w & 7) as u8, (w >> 3) & 1 == 1)
     }
-    pub fn set(slot: usize, tt: Option<Tt4>, canonical: Tt4, t: NpnTransform, pat: Option<&AigPattern>) {
+    /// `pat` is the pattern of the cut's class, `in_library` says whether lookup_canonical finds it (the gate count is stored unconditionally so that it stays a constant for CBMC)
+    pub fn set(slot: usize, tt: Option<Tt4>, canonical: Tt4, t: NpnTransform, p: &AigPattern, in_library: bool) {
         let w0 = (tt.is_some() as u64) | ((tt.unwrap_or(0) as u64) << 8) | ((canonical as u64) << 24) | ((t.in_neg as u64) << 40) | ((t.out_neg as u64) << 48);
         let mut w1 = (t.perm[0] as u64) | ((t.perm[1] as u64) << 8) | ((t.perm[2] as u64) << 16) | ((t.perm[3] as u64) << 24);
         let mut w2 = 0u64;
-        if let Some(p) = pat {
-            w1 |= 1u64 << 32;
-            GATES[slot].store(p.ands.len(), Relaxed);
+        GATES[slot].store(p.ands.len(), Relaxed);
+        {
+            w1 |= (in_library as u64) << 32;
             let mut k = 0;
             while k < p.ands.len() && k < 3 {
                 w2 |= (enc_edge(p.ands[k].0) | (enc_edge(p.ands[k].1) << 4)) << (8 * k);
